@@ -141,7 +141,7 @@ def many_sets_recipes():
     return out
 
 
-def bad_candidate(rng, recipe):
+def bad_candidate(rng, recipe, miss=None):
     """indices of a candidate that misses some live required family, or None; half of the time a NEAR miss: every other
     family is hit, exactly one (any one, the last ones included) is missed"""
     A = recipe.alphabet()
@@ -149,11 +149,14 @@ def bad_candidate(rng, recipe):
     L = recipe.length
     if L < 1 or not A or not fams:
         return None
-    f = rng.choice(fams) if rng.random() < 0.6 else fams[-1 - rng.randrange(min(3, len(fams)))]
+    if miss is not None:
+        f = fams[miss]
+    else:
+        f = rng.choice(fams) if rng.random() < 0.6 else fams[-1 - rng.randrange(min(3, len(fams)))]
     outside = [i for i, c in enumerate(A) if c not in f]
     if not outside:
         return None
-    if rng.random() < 0.5 and len(fams) - 1 <= L:
+    if (miss is not None or rng.random() < 0.5) and len(fams) - 1 <= L:
         cand, ok = [], True
         for g in fams:
             if g is f:
@@ -413,6 +416,22 @@ def with_resplits(rng, recs):
     return out
 
 
+def each_set_missed_tapes(rng, r):
+    """for a recipe with many required sets: one tape per set, whose first candidate hits every set but that one and whose second
+    candidate is valid — each set is enforced on its own, the ninth and tenth like the first"""
+    out = []
+    fams = r.live_families()
+    A = r.alphabet()
+    for j in range(len(fams)):
+        bad = bad_candidate(rng, r, miss=j)
+        good = good_candidate(rng, r)
+        if bad is None or good is None:
+            continue
+        words, _ = tape_for(rng, len(A), [bad, good], spread=True)
+        out.append((words + [rng.randrange(W) for _ in range(4)], {"kind": "only_set_%d_missed" % j, "candidate_rejections": 1}))
+    return out
+
+
 def run_chargen_family(ctx, nrec, budgets=None, want=3, recipes=None):
     """generate (recipe, budget, tape) cases, run both sides, return [(meta, impl, model)]"""
     rng = ctx.rng
@@ -421,7 +440,10 @@ def run_chargen_family(ctx, nrec, budgets=None, want=3, recipes=None):
     recs = with_resplits(rng, recs)
     for r in recs:
         b = getattr(r, "budget", None) or rng.choice(budgets or BUDGETS)
-        for words, feat in make_tapes(rng, r, b, want=want):
+        tapes = make_tapes(rng, r, b, want=want)
+        if len(r.live_families()) >= 9:
+            tapes = tapes + each_set_missed_tapes(rng, r)
+        for words, feat in tapes:
             meta = {"recipe": r.to_json(), "budget": b, "words": words if len(words) <= 48 else words[:48] + ["..."],
                     "features": feat, "_recipe": r, "_words": words}
             cases.append((chargen_line(r, b, words), meta))
